@@ -2,6 +2,7 @@ package rules
 
 import (
 	"fmt"
+	"sort"
 	"strings"
 
 	"go/token"
@@ -24,7 +25,8 @@ func init() {
 			"R2 in the AVP decoder the Length field comes from bytes 5..7 of the input, and every path to the payload slice passed guards establishing header size ≤ Length ≤ len(data) with header size 8, or 12 exactly under the V-flag predicate, each failing guard returning a non-nil error; " +
 			"R3 the bytes handed to datatype.Decode are exactly data[hdr:Length], with no type-dependent re-slicing; " +
 			"R4 the walk loops hand the decoder b[n:] of the enclosing container (no longer slice), so R2's bound is the container's; " +
-			"R5 a walk loop is left only through an error return or on the edge where the cursor has reached the end of the container, so no trailing bytes are skipped. " +
+			"R5 a walk loop is left only through an error return or on the edge where the cursor has reached the end of the container, so no trailing bytes are skipped; " +
+			"R6 in every function of the decode family the error edge of a nested decoding step (payload decoder, group walk, AVP decoder) never reaches a return with a nil error. " +
 			"Given R1–R4 the framing is a function of the Length fields by construction. Not decided: comparison with a reference framer as executed behaviour.",
 		Rules: map[string]string{
 			"R1": "walk-loop stride: only origin is the decoded AVP's Length, equals round-up-4(Length) for all residues",
@@ -32,8 +34,9 @@ func init() {
 			"R3": "payload given to datatype.Decode is data[:Length][hdr:]",
 			"R4": "walk loops pass b[n:] of the loop-invariant container",
 			"R5": "walk loops are left only with an error or when the cursor has reached the end of the container (no bytes skipped)",
+			"R6": "errors of nested decoding steps propagate: no nil-error return is reachable from their error edge",
 		},
-		MinInstances: map[string]int{"R1": 2, "R2": 3, "R3": 1, "R4": 2, "R5": 2},
+		MinInstances: map[string]int{"R1": 2, "R2": 3, "R3": 1, "R4": 2, "R5": 2, "R6": 3},
 		Assumptions:  []string{"integer overflow ignored for lengths < 2^24 (int is at least 32 bits)"},
 	})
 }
@@ -292,6 +295,102 @@ func runC04(c *Ctx) {
 		c.c04WalkExit(w)
 	}
 	c.c04Decoder()
+	c.c04ErrorsPropagate(walks)
+}
+
+// c04ErrorsPropagate: R6 — a framing error found while decoding a nested level is an error of every
+// enclosing level. In every function of the AVP decode family, a call of another family function (or of the
+// payload decoder) that reports an error is never followed, from its error edge, by a return with a nil
+// error; the error is either tested or handed on as the function's own result.
+func (c *Ctx) c04ErrorsPropagate(walks []*walkLoop) {
+	r := c.R
+	fam := map[*ssa.Function]bool{}
+	if top, _, _ := c.avpDecoder(); top != nil {
+		fam[top] = true
+	}
+	for _, w := range walks {
+		fam[w.fn] = true
+		if g := flow.StaticCallee(w.call); g != nil {
+			fam[g] = true
+		}
+	}
+	// close under "calls a family member and returns an error" within package diam
+	for changed := true; changed; {
+		changed = false
+		for _, f := range c.P.LibraryFuncs() {
+			if fam[f] || pkgOf(f).Path() != pkgDiam || f.Signature.Results().Len() == 0 || !isErrorType(f.Signature.Results().At(f.Signature.Results().Len()-1).Type()) {
+				continue
+			}
+			if byteParam(f) == nil && !(f.Signature.Recv() != nil && flow.RecvTypeName(f.Signature) == "AVP") {
+				continue
+			}
+			for _, ci := range flow.CallInstrs(f) {
+				if g := flow.StaticCallee(ci); g != nil && fam[g] {
+					fam[f] = true
+					changed = true
+				}
+			}
+		}
+	}
+	var fs []*ssa.Function
+	for f := range fam {
+		fs = append(fs, f)
+	}
+	sort.Slice(fs, func(i, j int) bool { return fname(fs[i]) < fname(fs[j]) })
+	for _, f := range fs {
+		for _, ci := range flow.CallInstrs(f) {
+			call, ok := ci.(*ssa.Call)
+			if !ok {
+				continue
+			}
+			g := flow.StaticCallee(call)
+			isDec := g != nil && fam[g]
+			if flow.IsCallTo(call, pkgDatatype, "", "Decode") {
+				isDec = true
+			}
+			ev := errorResult(call)
+			if !isDec || ev == nil {
+				continue
+			}
+			key := fmt.Sprintf("%s:error-of-%s", fname(f), calleeLabel(call))
+			bad := ""
+			var at ssa.Instruction = call
+			flow.Instrs(f, func(in ssa.Instruction) {
+				ret, ok := in.(*ssa.Return)
+				if !ok || bad != "" || len(ret.Results) == 0 {
+					return
+				}
+				// handed on as is
+				for _, s := range flow.SpillSources(ret.Results[len(ret.Results)-1]) {
+					if s == ev {
+						return
+					}
+				}
+				if !mayReturnNilError(ret) {
+					return
+				}
+				if p := pathFromErrEdge(f, call, ret); p != nil {
+					bad, at = "after a nested decoding step failed the function can still return without an error: malformed framing inside is accepted (the AVP is kept undecoded or partly decoded)", ret
+				}
+			})
+			if bad == "" && len(errorEdgeBlocks(call)) == 0 {
+				handed := false
+				flow.Instrs(f, func(in ssa.Instruction) {
+					if ret, ok := in.(*ssa.Return); ok && len(ret.Results) > 0 {
+						for _, s := range flow.SpillSources(ret.Results[len(ret.Results)-1]) {
+							if s == ev {
+								handed = true
+							}
+						}
+					}
+				})
+				if !handed {
+					bad = "the error of a nested decoding step is neither tested nor returned"
+				}
+			}
+			r.Check(bad == "", "R6", key, c.pos(at), "the nested step's error edge always leads to an error return", bad)
+		}
+	}
 }
 
 func (c *Ctx) posV(v ssa.Value) string {
